@@ -185,7 +185,7 @@ def meta(tier):
     b = bounds(tier)
     return {
         "level": "model_checking",
-        "rule": "one execution per configuration (database subset of the 14-instance universe with |DB| <= %d) x (every ordered list of 1..3 pairwise disjoint roots from an 8-root menu: 324 lists) x API (multiwalk; walk for single roots; PyWrapper variants for |DB| <= %d); v2c; states = (configuration, exchange index) pairs, transitions = request/response exchanges; non-trivial = at least two requests and at least one instance yielded"
+        "rule": "one execution per configuration (database subset of the 15-instance universe with |DB| <= %d) x (every ordered list of 1..3 pairwise disjoint roots from an 9-root menu) x API (multiwalk; walk for single roots; PyWrapper variants for |DB| <= %d); v2c; states = (configuration, exchange index) pairs, transitions = request/response exchanges; non-trivial = at least two requests and at least one instance yielded"
         % (b["max_db"], b["py_max_db"]),
         "exhaustive": True,
         "bounds": b,
